@@ -395,3 +395,18 @@ V('x-category-table-reset', PYX, "        if status > 0:\n            all_result
 V('h-cache-overwrite', H, "    auto apply_unary_rules = [&](unsigned x)\n    {\n        std::pair<unsigned, unsigned> key(x, UINT_MAX);\n        if (cache->count(key) == 0)\n        {", "    auto apply_unary_rules = [&](unsigned x)\n    {\n        std::pair<unsigned, unsigned> key(x, UINT_MAX);\n        cache->erase(key);\n        if (cache->count(key) == 0)\n        {", ['C11'])
 V('h-cache-key-collides', H, "std::pair<unsigned, unsigned> key(x, y);", "std::pair<unsigned, unsigned> key(y, x);", ['C11', 'C02', 'C12'])
 V('x-shared-failed-list', PYX, "    def failed():\n        return [", "    _FAILED = []\n\n    def failed():\n        return _FAILED or [", ['C11'])
+
+# ---------------------------------------------------------------- C05
+V('c5-split-no-pipe', CAT, "cat_split = re.compile(r'([\\[\\]\\(\\)/\\\\|<>])')", "cat_split = re.compile(r'([\\[\\]\\(\\)/\\\\<>])')", ['C05'])
+V('c5-split-no-capture', CAT, "cat_split = re.compile(r'([\\[\\]\\(\\)/\\\\|<>])')", "cat_split = re.compile(r'[\\[\\]\\(\\)/\\\\|<>]')", ['C05'])
+V('c5-atom-braces', CAT, "        return f'{self.base}[{feature}]'", "        return f'{self.base}{{{feature}}}'", ['C05'])
+V('c5-functor-no-brackets', CAT, "            if isinstance(cat, Functor):\n                return f'({cat})'\n            return str(cat)", "            return str(cat)", ['C05'])
+V('c5-functor-always-brackets', CAT, "            if isinstance(cat, Functor):\n                return f'({cat})'\n            return str(cat)", "            return f'({cat})'", ['C05'], expect='silent')
+V('c5-ternary-semicolon', CAT, "        return ','.join(f'{k}={v}' for k, v in self.items())", "        return ';'.join(f'{k}={v}' for k, v in self.items())", ['C05'])
+V('c5-ternary-colon', CAT, "        return ','.join(f'{k}={v}' for k, v in self.items())", "        return ','.join(f'{k}:{v}' for k, v in self.items())", ['C05'])
+V('c5-parse-feature-or', CAT, "        if '=' in text and ',' in text:", "        if '=' in text:", ['C05'])
+V('c5-left-assoc-guess', CAT, "        if len(stack) == 1:\n            return stack[0]\n        try:\n            x, f, y = stack\n            return Functor(x, f, y)", "        while len(stack) > 3:\n            x, f, y = stack[:3]\n            stack[:3] = [Functor(x, f, y)]\n        if len(stack) == 1:\n            return stack[0]\n        try:\n            x, f, y = stack\n            return Functor(x, f, y)", ['C05'])
+V('c5-bracket-unchecked', CAT, "                    f = stack.pop()\n                    x = stack.pop()\n                    assert stack.pop() in \"(<\"\n", "                    f = stack.pop()\n                    x = stack.pop()\n                    stack.pop()\n", ['C05'])
+V('c5-end-star-unpack', CAT, "            x, f, y = stack\n            return Functor(x, f, y)", "            x, f, *y = stack\n            return Functor(x, f, y[-1])", ['C05'])
+V('c5-items-reordered', CAT, "        return (self.kv1, self.kv2, self.kv3)", "        return (self.kv1, self.kv3, self.kv2)", ['C05'])
+V('c5-silent-rename', CAT, "                    f = stack.pop()\n                    x = stack.pop()\n                    assert stack.pop() in \"(<\"\n                    stack.append(Functor(x, f, y))", "                    slash = stack.pop()\n                    left = stack.pop()\n                    assert stack.pop() in \"(<\"\n                    stack.append(Functor(left, slash, y))", ['C05'], expect='silent')
